@@ -2,5 +2,5 @@
 EXTENDS Memo
 c_Trees == {"A", "and(A,B)", "not(A)", "mor(A,B)", "or(not(A),B)", "xor(and(A,B),A)"}
 c_SlotsOf == [t \in c_Trees |-> IF t \in {"A", "not(A)"} THEN {"A"} ELSE {"A", "B"}]
-c_Evals == {"mask", "maskview", "subset", "stat", "hist", "linkedvalue", "layerhist"}
+c_Evals == {"mask", "maskview", "subset", "stat", "hist", "linkedvalue", "layerhist", "statsample"}
 ====
